@@ -1,6 +1,7 @@
 import Bclv.Model.Tree
 import Bclv.Model.Lexer
 import Bclv.Model.Parser
+import Bclv.Proofs.ParserErase4
 /-!
 # C20 — layout, comments and redundant parentheses never change meaning (partial)
 
@@ -10,6 +11,15 @@ arbitrary content, optional `;`, redundant parentheses) and the instructions, co
 and run outcomes must coincide, on the implementation and on the model.  Proved here are
 the pieces that do not need a theory of re-rendering:
 
+* `parse_positions` / `parse_positions_code` (`Proofs/ParserErase1`–`4`): **source positions do
+  not steer the parser** — for any two token lists that agree up to the recorded offsets
+  (and any two line tables) the parser returns the same tree up to positions, the same
+  constant pool, the same verdict and statistics, and the compiler emits the same
+  instruction bytes.  Proved relationally through every parser function (two runs from
+  states with the same erasure end in states with the same erasure; the diagnostics' text,
+  which does contain line and column, is part of what is erased).  So layout can reach the
+  compiled program only through the token list itself (kinds and texts), never through
+  where the tokens stand;
 * `positions_do_not_reach_code_partial`: the code bytes the compiler emits for an
   expression, a statement or a program do not depend on any recorded source position —
   two trees that differ only in positions compile to the same instructions;
@@ -21,6 +31,19 @@ the pieces that do not need a theory of re-rendering:
 -/
 namespace Bclv.C20
 open Bclv
+
+/-- Layout reaches the program only through the kinds and texts of the tokens. -/
+theorem layout_only_through_tokens (toks₁ toks₂ : List Token) (lfs₁ lfs₂ : List Nat)
+    (h : toks₁.map eT = toks₂.map eT) :
+    (compileP (parseTokens toks₁ lfs₁).prog).map Prod.fst = (compileP (parseTokens toks₂ lfs₂).prog).map Prod.fst ∧
+    (parseTokens toks₁ lfs₁).consts = (parseTokens toks₂ lfs₂).consts ∧
+    (parseTokens toks₁ lfs₁).ok = (parseTokens toks₂ lfs₂).ok :=
+  parse_positions_code toks₁ toks₂ lfs₁ lfs₂ h
+
+/-- non-vacuity: the same three tokens at different offsets -/
+example : ([⟨.PRINT, [112], [], 0⟩, ⟨.INT, [49], [], 6⟩, ⟨.EOF, [], [], 7⟩] : List Token).map eT
+    = ([⟨.PRINT, [112], [], 3⟩, ⟨.INT, [49], [], 40⟩, ⟨.EOF, [], [], 90⟩] : List Token).map eT := by
+  simp [eT]
 
 /-- Forget every recorded position. -/
 def eraseE : Expr → Expr
